@@ -61,6 +61,11 @@ type State struct {
 
 var registry = map[string]*Subsystem{}
 
+// AtExit registers a cleanup that runs after the last case (scratch kept outside State.Dir).
+var atExit []func()
+
+func AtExit(f func()) { atExit = append(atExit, f) }
+
 func Register(s *Subsystem) { registry[s.Name] = s }
 
 // Rand is splitmix64; every random choice of a run derives from one seed.
@@ -182,6 +187,11 @@ func main() {
 		panic(err)
 	}
 	defer os.RemoveAll(dir)
+	defer func() {
+		for _, f := range atExit {
+			f()
+		}
+	}()
 
 	opsF := mustCreate(*opsPath)
 	outF := mustCreate(*outPath)
